@@ -79,7 +79,7 @@ def strings(tier, seed):
     res = ComponentResult()
     N = 7 if tier == "thorough" else 6
     alpha = "Mla01.-e, "
-    res.bound = f"all strings of length <= {N} over the alphabet {alpha!r}; all sequences of <= 4 numbers over {len(NUMBER_FORMS)} lexical forms x 4 separator choices after M/L/H/A; {2000 if tier == 'quick' else 20000} mutated grammar-derived strings"
+    res.bound = f"all strings of length <= {N} over the alphabet {alpha!r}; all sequences of <= 4 numbers over {len(NUMBER_FORMS)} lexical forms x 9 separator choices (space, comma, tab, LF, CR, CRLF ...) after M/L/H/A; {2000 if tier == 'quick' else 20000} mutated grammar-derived strings"
     res.rule = "string -> independent BNF parser (bounded/pathgrammar.py) vs parse_svg_path: equal sequence or ValueError for conforming strings, no exception other than ValueError for any string; distinct = distinct strings that conform to the grammar"
     conforming = 0
     seen_keys = set()
@@ -104,7 +104,7 @@ def strings(tier, seed):
             feed("".join(tup))
     for k in range(1, 5):
         for forms in itertools.product(NUMBER_FORMS, repeat=k) if k <= 2 else itertools.islice(itertools.product(NUMBER_FORMS, repeat=k), 0, 30000, 7):
-            for sep in (" ", ",", " , ", ""):
+            for sep in (" ", ",", " , ", "", "\t", "\n", "\r", "\r\n", " \r"):
                 for lead in ("M", "M1 2L", "M1 2H"):
                     feed(lead + sep.join(forms))
     rnd = random.Random(seed)
@@ -115,7 +115,7 @@ def strings(tier, seed):
             i = rnd.randrange(len(s))
             op = rnd.random()
             if op < 0.4:
-                s[i] = rnd.choice("0123456789.-+eE, \t\nMmLlZzAa")
+                s[i] = rnd.choice("0123456789.-+eE, \t\n\rMmLlZzAa")
             elif op < 0.7:
                 del s[i]
             else:
